@@ -543,8 +543,107 @@ fn cancel_frames(h: &crate::mock::Handle, ch: u16, tag: &str) -> usize {
     })
 }
 
+/// The connection is closed by the client itself because of a client exception (the broker
+/// sent a method the client does not implement, e.g. Channel.Flow, or one only a client may
+/// send): a connection close by the client side like any other, so every consumer gets its
+/// deliveries, then one terminal message saying so, then the end of its queue.
+fn client_exception_case(r: &mut Rng, res: &mut CaseResult) {
+    let (conn, h) = session::open_default(Reflex::default());
+    let mut conn = match conn {
+        Ok(c) => c,
+        Err(e) => {
+            res.inconclusive(format!("handshake: {}", ek(&e)));
+            return;
+        }
+    };
+    let mut actors: Vec<(Actor, Vec<(usize, String, Vec<(u64, Vec<u8>)>)>)> = Vec::new();
+    let mut dtag = 0u64;
+    for i in 0..r.usize(1, 3) {
+        let ch = match conn.open_channel(None) {
+            Ok(c) => c,
+            Err(e) => {
+                res.inconclusive(format!("open_channel: {}", ek(&e)));
+                return;
+            }
+        };
+        let a = Actor::spawn(ch, &format!("e{}", i));
+        let mut cons = Vec::new();
+        for _ in 0..r.usize(0, 2) {
+            if let Some(Rep::Consumed(idx, tag)) = a.call(Cmd::Consume { observed: true }) {
+                let mut sent = Vec::new();
+                for _ in 0..r.usize(0, 3) {
+                    dtag += 1;
+                    let body = vec![dtag as u8; r.usize(0, 40)];
+                    let m = Msg { exchange: "x".into(), routing_key: "k".into(), redelivered: false, delivery_tag: dtag, props: Default::default(), body: body.clone(), message_count: 0 };
+                    h.inject(deliver_frames(a.id, &tag, &m, &even_partition(body.len(), 30)).concat());
+                    sent.push((dtag, body));
+                }
+                cons.push((idx, tag, sent));
+            }
+        }
+        actors.push((a, cons));
+    }
+    // the offending method, on one of the channels
+    let on = actors[r.usize(0, actors.len() - 1)].0.id;
+    let frame = if r.bool() {
+        // Channel.Flow: a regular server method this client does not implement
+        wire::enc_method(on, AMQPClass::Channel(amq_protocol::protocol::channel::AMQPMethod::Flow(amq_protocol::protocol::channel::Flow { active: false })))
+    } else {
+        // Basic.Qos: only a client may send it
+        wire::enc_method(on, AMQPClass::Basic(B::Qos(basic::Qos { prefetch_size: 0, prefetch_count: 1, global: false })))
+    };
+    h.inject(frame);
+    if !h.wait_released(W) {
+        res.violate("call_failed", "the connection did not end after a client exception".to_string());
+    }
+    for (a, cons) in &actors {
+        if let Some(Rep::Drained { consumers, .. }) = a.drain() {
+            for (idx, tag, sent) in cons {
+                let got: Vec<CMsg> = consumers.iter().filter(|(i, _)| i == idx).flat_map(|(_, m)| m.clone()).collect();
+                let mut want: Vec<CMsg> = sent.iter().map(|(t, b)| CMsg::Delivery(*t, b.clone())).collect();
+                want.push(CMsg::ClientClosedConnection);
+                want.push(CMsg::Disconnected);
+                if got != want {
+                    let terms: Vec<String> = got.iter().filter(|m| !matches!(m, CMsg::Delivery(..))).map(short).collect();
+                    res.violate(
+                        if terms.len() <= 1 { "no_terminal" } else { "wrong_terminal" },
+                        format!("client exception (offending method on channel {}): consumer {} on channel {} saw {} deliveries (of {}) and then {:?}; want the deliveries, ClientClosedConnection, end of queue", on, tag, a.id, got.iter().filter(|m| matches!(m, CMsg::Delivery(..))).count(), sent.len(), terms),
+                    );
+                }
+                res.obs("observed_consumers", 1);
+            }
+        }
+        a.send(Cmd::Stop);
+    }
+    let t = run::spawn("close", move || conn.close());
+    match t.join(W) {
+        J::Done(Err(e)) if ek(&e) == "ClientException" => {}
+        J::Done(other) => res.violate("call_failed", format!("Connection::close after a client exception: {}", session::rk(&other))),
+        _ => res.violate("call_failed", "Connection::close did not return".to_string()),
+    }
+    for p in run::io_panics(&run::take_panics()) {
+        res.violate("io_thread_panic", format!("{} at {}", p.msg, p.loc));
+    }
+    res.sig = crate::rng::fnv_str(&format!("cex{}{}", actors.len(), dtag));
+    res.sample = Some(json!({"scenario": "client exception with consumers attached", "channels": actors.len()}));
+}
+
 pub fn run(rc: &mut RunCtx) {
     let seed = rc.seed;
+    for i in 0..rc.n(48, 800) {
+        let id = format!("client-exception:{}", i);
+        if !rc.mine(&id) {
+            continue;
+        }
+        rc.begin(&id);
+        let mut res = CaseResult::new(id);
+        let mut r = Rng::for_case(seed, 11, 7_000_000 + i);
+        client_exception_case(&mut r, &mut res);
+        if i % 16 != 0 && !res.is_violation() {
+            res.sample = None;
+        }
+        rc.end(res);
+    }
     let n = rc.n(3000, 40000);
     for i in 0..n {
         let id = format!("hist:{}", i);
